@@ -87,10 +87,15 @@ theorem hRead_ro (hs : RowStable I) (hst : ∀ w, I w → I { w with stuck := tr
   unfold hRead
   repeat (first | with_reducible exact startReader_ro hs hst f _ | pres_step)
 
+theorem seekStart_ro (hs : RowStable I) (hst : ∀ w, I w → I { w with stuck := true }) (f : FsCfg) (hd : Handle) (lazyOk : Bool) :
+    Pres I (seekStart f hd lazyOk) := by
+  unfold seekStart
+  repeat (first | with_reducible exact startReader_ro hs hst f _ | pres_step)
+
 theorem hSeekNoLock_ro (hs : RowStable I) (hst : ∀ w, I w → I { w with stuck := true }) (f : FsCfg) (hd : Handle) (o w : Int) :
     Pres I (hSeekNoLock f hd o w) := by
   unfold hSeekNoLock
-  repeat (first | with_reducible exact startReader_ro hs hst f _ | pres_step)
+  repeat (first | with_reducible exact seekStart_ro hs hst f _ _ | with_reducible exact startReader_ro hs hst f _ | pres_step)
 
 theorem hReadAt_ro (hs : RowStable I) (hst : ∀ w, I w → I { w with stuck := true }) (f : FsCfg) (hd : Handle) (n : Nat) (o : Int) :
     Pres I (hReadAt f hd n o) := by
